@@ -162,10 +162,11 @@ func vxH18Confine(dotu bool, op int, L int, alphabet int, strict bool) {
 		}
 	case "rename":
 		// the object being renamed: a directory at depth 1 or 2, or a file at depth 1 or 3
-		objs := []string{vxRoot + "/a", vxRoot + "/a/a", vxRoot + "/aa", vxRoot + "/a/a/a", vxRoot + "/a/../aa"}
+		// ... or the exported root itself (a client holds a fid for it after every attach)
+		objs := []string{vxRoot + "/a", vxRoot + "/a/a", vxRoot + "/aa", vxRoot + "/a/a/a", vxRoot + "/a/../aa", vxRoot}
 		o := vxChoose("object", len(objs))
 		qt := uint8(0)
-		if o < 2 {
+		if o < 2 || o == 5 {
 			qt = QTDIR
 		}
 		k.addFid(1, objs[o], qt)
